@@ -43,6 +43,9 @@ func main() {
 	}
 }
 
+// workerMode is the engine-specific mode of this worker process.
+var workerMode string
+
 func batchSeed() uint64 {
 	if v := os.Getenv("VERIF_SEED"); v != "" {
 		if n, err := strconv.ParseUint(v, 10, 64); err == nil {
@@ -80,6 +83,12 @@ func runMain(args []string) {
 	} else {
 		p = generatePlan(*engine, *prop, *seed, *tier, *audit, *mode)
 	}
+	workerMode = *mode
+	if workerMode == "" && p.Knobs != nil {
+		if m, ok := p.Knobs["worker_mode"].(string); ok {
+			workerMode = m
+		}
+	}
 	res := executePlan(p, *keepLog, *mode)
 	if *withPlan || len(res.Violations) > 0 {
 		res.Plan = p
@@ -98,7 +107,7 @@ func runMain(args []string) {
 func generatePlan(engine, prop string, seed uint64, tier string, audit bool, mode string) *Plan {
 	switch engine {
 	case "hist":
-		return genHist(seed, prop, tier, audit)
+		return genHist(seed, prop, tier, audit, mode)
 	case "fault":
 		return genFault(seed, prop, tier)
 	case "sched":
